@@ -466,5 +466,5 @@ func c48(run *ev.Run) {
 	}
 	run.Rule = "per contract: BFS over all sequences up to the depth bound of settings updates by {owner, client, miner} carrying EVERY map of <= 3 entries from {valid, second valid, immutable/unknown, unparsable, failing validation, jointly inconsistent} (+ commit_settings_changes by owner/stranger and a post-'demeter' start state for storagesc); oracle on the settings nodes of ALL contracts: change => accepted settings function of that contract, caller == owner recorded in the pre-state (storage commit: applies staged owner changes), no immutable/unknown/unparsable entry, stored node passes the contract's own validate; not accepted => every settings node byte-identical; plus: every owner update with >= 2 bad entries is executed under every map iteration order offered by the maporder seam (all n! orders for n <= 3) on the same state and must give identical status, output and state"
 	_ = json.Marshal
-	explore(run, w, acts, roots, run.Pick(2, 3), true, 50, 780, govMonitor)
+	explore(run, w, acts, roots, run.Pick(2, 4), true, 50, 780, govMonitor)
 }
